@@ -5,6 +5,7 @@ import (
 	"crypto/elliptic"
 	"crypto/sha512"
 	"fmt"
+	"math/big"
 
 	"github.com/cloudflare/circl/oprf"
 
@@ -321,6 +322,30 @@ func (m *c16) ops() []*c16Op {
 			return []byte{0}
 		}})
 
+	// big-integer arguments: r and s handed to Verify are the caller's objects
+	add(&c16Op{name: "ecdsa.Verify(r, s *big.Int)", group: "ecdsa", names: []string{"digest"},
+		inputs: func(r *core.Rand) [][]byte { return [][]byte{r.Bytes(48)} },
+		call: func(a [][]byte) []byte {
+			for _, cv := range []elliptic.Curve{elliptic.P224(), elliptic.P256(), elliptic.P384(), elliptic.P521()} {
+				k, err := ecdsa.GenerateKey(cv, setupReader())
+				must(err)
+				rr, ss, err := ecdsa.Sign(setupReader(), k, a[0])
+				must(err)
+				r0, s0 := new(big.Int).Set(rr), new(big.Int).Set(ss)
+				px, py, d0 := new(big.Int).Set(k.X), new(big.Int).Set(k.Y), new(big.Int).Set(k.D)
+				if !ecdsa.Verify(&k.PublicKey, a[0], rr, ss) {
+					panic("verify failed")
+				}
+				if rr.Cmp(r0) != 0 || ss.Cmp(s0) != 0 {
+					panic("ecdsa.Verify changed the caller's r or s")
+				}
+				if k.X.Cmp(px) != 0 || k.Y.Cmp(py) != 0 || k.D.Cmp(d0) != 0 {
+					panic("ecdsa.Sign/Verify changed the caller's key")
+				}
+			}
+			return nil
+		}})
+
 	// ---- quicwire
 	add(&c16Op{name: "quicwire.AppendVarintBytes", group: "codec", names: []string{"destination", "value"}, destPrefix: true,
 		inputs: func(r *core.Rand) [][]byte { return [][]byte{r.Bytes(r.IntN(6)), r.Bytes(r.Of(0, 5, 70, 300))} },
@@ -398,6 +423,91 @@ func (m *c16) ops() []*c16Op {
 			must(err)
 			return digestOf(es...)
 		}})
+
+	// ---- decoders on inputs that stop short: the missing bytes must not be taken from the spare capacity
+	truncOp := func(name string, gen func(r *core.Rand) []byte, dec func(b []byte) []byte) {
+		for _, cut := range []int{1, 7} {
+			cut := cut
+			add(&c16Op{name: fmt.Sprintf("%s(input %d bytes short)", name, cut), group: "codec", names: []string{"data"},
+				inputs: func(r *core.Rand) [][]byte { b := gen(r); return [][]byte{b[:len(b)-cut]} },
+				call:   func(a [][]byte) []byte { return dec(a[0]) }})
+		}
+	}
+	verdict := func(ok bool, enc []byte) []byte {
+		if !ok {
+			return []byte("rejected")
+		}
+		return append([]byte("accepted:"), enc...)
+	}
+	truncOp("batched.TokenRequest.Unmarshal", func(r *core.Rand) []byte {
+		return encBatch([]refReq{{1, 1, r.Bytes(49)}, {2, 2, r.Bytes(256)}, {1, 3, r.Bytes(49)}})
+	}, func(b []byte) []byte {
+		q := new(batched.BatchedTokenRequest)
+		ok := q.Unmarshal(b)
+		return verdict(ok, q.Marshal())
+	})
+	truncOp("batched.UnmarshalBatchedTokenResponses", func(r *core.Rand) []byte {
+		return encRespList([]refEntry{{true, 1, r.Bytes(145)}, {}, {true, 2, r.Bytes(256)}})
+	}, func(b []byte) []byte {
+		es, err := batched.UnmarshalBatchedTokenResponses(b)
+		return verdict(err == nil, digestOf(es...))
+	})
+	for _, rc := range reqCodecs() {
+		rc := rc
+		truncOp(rc.name+".Unmarshal", func(r *core.Rand) []byte { return rc.gen(r, 3) }, func(b []byte) []byte {
+			o, _ := rc.mk()
+			ok := o.Unmarshal(b)
+			return verdict(ok, o.Marshal())
+		})
+	}
+	for _, tc := range tokenCodecs {
+		tc := tc
+		truncOp(tc.name+".UnmarshalToken", func(r *core.Rand) []byte { return r.Bytes(98 + tc.nk) }, func(b []byte) []byte {
+			t, err := tc.dec(b)
+			return verdict(err == nil, t.Marshal())
+		})
+	}
+	truncOp("tokens.UnmarshalTokenChallenge", func(r *core.Rand) []byte {
+		return tokens.TokenChallenge{TokenType: 2, IssuerName: "issuer.example", RedemptionNonce: r.Bytes(32), OriginInfo: []string{"origin.example"}}.Marshal()
+	}, func(b []byte) []byte {
+		v, err := tokens.UnmarshalTokenChallenge(b)
+		return verdict(err == nil, v.Marshal())
+	})
+	truncOp("type3.UnmarshalEncapKey", func(r *core.Rand) []byte { return iss3.NameKey().Marshal() }, func(b []byte) []byte {
+		k, err := type3.UnmarshalEncapKey(b)
+		if err != nil {
+			return verdict(false, nil)
+		}
+		return verdict(true, k.Marshal())
+	})
+	truncOp("util.UnmarshalTokenKey", func(r *core.Rand) []byte { b, _ := util.MarshalTokenKey(&rk[0].PublicKey, false); return b }, func(b []byte) []byte {
+		k, err := util.UnmarshalTokenKey(b)
+		if err != nil {
+			return verdict(false, nil)
+		}
+		return verdict(true, k.N.Bytes())
+	})
+	truncOp("type1.FinalizeToken", func(r *core.Rand) []byte {
+		st, _ := type1.NewBasicPrivateClient().CreateTokenRequestWithBlind([]byte("c"), make([]byte, 32), iss1.TokenKeyID(), iss1.TokenKey(), c01EdgeScalar(core.NewRand(1, "x"), 1, oprfGroup(oprf.SuiteP384)))
+		resp, err := iss1.Evaluate(st.Request())
+		must(err)
+		return resp
+	}, func(b []byte) []byte {
+		st, _ := type1.NewBasicPrivateClient().CreateTokenRequestWithBlind([]byte("c"), make([]byte, 32), iss1.TokenKeyID(), iss1.TokenKey(), c01EdgeScalar(core.NewRand(1, "x"), 1, oprfGroup(oprf.SuiteP384)))
+		t, err := st.FinalizeToken(b)
+		return verdict(err == nil, t.Marshal())
+	})
+	truncOp("type5.FinalizeTokens", func(r *core.Rand) []byte {
+		resp, err := iss5.Evaluate(c16FixedT5(iss5).Request())
+		must(err)
+		return resp
+	}, func(b []byte) []byte {
+		ts, err := c16FixedT5(iss5).FinalizeTokens(b)
+		if err != nil {
+			return verdict(false, nil)
+		}
+		return verdict(true, ts[0].Marshal())
+	})
 
 	// ---- type 1
 	add(&c16Op{name: "type1.CreateTokenRequestWithBlind", group: "type1", names: []string{"challenge", "nonce", "tokenKeyID", "blind"},
